@@ -166,21 +166,30 @@ func (x *Exec) doAppend(st *State, sv, tv Value, sliceType types.Type) Value {
 
 func (x *Exec) callStatic(st *State, fn *ssa.Function, args []Value, binds []Value, pos token.Pos, k cont) {
 	w := x.w
-	if !w.inRepo(fn) {
-		x.libCall(st, fn, args, pos, k)
+	if x.initMode && fn.Name() == "init" && fn.Synthetic != "" && len(args) == 0 {
+		k(st, nil) // the initialiser of an imported package
 		return
 	}
-	key := funcKey(fn)
-	fc := w.contracts[key]
 	if len(st.frames) == 1 && !x.pureMode {
 		// assertions the function under verification owes just before it calls fn
 		root := st.frames[0]
 		if rfc := w.contracts[funcKey(root.fn)]; rfc != nil && len(rfc.CallSites[fn.Name()]) > 0 {
 			env := x.newSpecEnv(st, st, root.fn)
 			env.bindRootParams(root)
+			env.frame = root
+			env.atBlock = st.curBlock
+			for i, a := range args {
+				env.vars[fmt.Sprintf("arg%d", i)] = a // the arguments of the call
+			}
 			for _, c := range rfc.CallSites[fn.Name()] {
 				g, err := env.evalBool(c.Expr)
 				if err != nil {
+					if strings.Contains(err.Error(), "unknown identifier") {
+						// the clause talks about a local that is not in scope at this call: it is
+						// about other calls of the same function
+						x.noteOnce("callsite clause %s does not apply at %s (%v)", c.Label, x.srcAt(pos), err)
+						continue
+					}
 					x.contractError(c, err)
 					continue
 				}
@@ -188,6 +197,12 @@ func (x *Exec) callStatic(st *State, fn *ssa.Function, args []Value, binds []Val
 			}
 		}
 	}
+	if !w.inRepo(fn) {
+		x.libCall(st, fn, args, pos, k)
+		return
+	}
+	key := funcKey(fn)
+	fc := w.contracts[key]
 	// a side-effect free function is applied as the SMT function it denotes (exact and
 	// deterministic); its contract, if any, is then only an obligation of its own check
 	if pd := w.pureDef(fn); pd != nil && binds == nil && !(fc != nil && fc.Flags["opaque"]) {
